@@ -82,6 +82,10 @@ def run(ctx, chk, tier):
     chk.trusted |= {"numpy.nonzero returns indices in row-major order", "numpy.argmin", "boolean & | on masks"}
     ev = ctx.ev
     f = ctx.fn(Q)
+    # the curve that is inverted is a ConfusionMatrix metric of cm(points): its cells are the decision-rule counts in a buffer wide enough
+    # for them (a matrix stored in a narrower integer type makes TOP / TON wrap around and the inverted curve is not the metric's)
+    from . import c01 as _c01
+    _c01.cm_cells_rule(ctx, chk)
     for trank in (1, 0):
         Tt = Sym("t", ("param", "array", "notnone", "rank%d" % trank))
         outs = ctx.explore(lambda: ev.call(f, [X, Y, Tt], {}), chk)
